@@ -145,3 +145,14 @@ class custom_maze_filter:
         **_PROVENANCE,
     }
     props = ["C08"]
+
+
+@contract(MD, "MazeDatasetFilters.remove_duplicates_fast")
+class remove_duplicates_fast:
+    """the mazes that are not equal (same connection structure, start, end, solution) to an EARLIER maze of the input, in their original order"""
+    params = dict(dataset=DS)
+    ensures = {
+        "C08.remove_duplicates_fast": "is_filter(result.mazes, dataset.mazes, lambda a: not exists(lambda b: maze_equal(dataset.mazes[b], dataset.mazes[a]), (0, a)))",
+        "C08.cfg-kept": "same_value(result.cfg, dataset.cfg)",
+    }
+    props = ["C08"]
